@@ -13,6 +13,8 @@ HARNESS = os.path.join(CACHE, 'target-harness', 'release', 'fp_harness')
 HOOKBIN = os.path.join(CACHE, 'target-hook', 'release', 'fastpasta')
 REPLAYS = os.path.join(ROOT, 'replays')
 EVIDENCE = os.path.join(ROOT, 'evidence')
+if os.environ.get('VERIF_SKIP_PROOF') == '1':      # seeded-change evaluation: keep real evidence/replays untouched
+    REPLAYS = os.path.join(CACHE, 'seeded-replays'); EVIDENCE = os.path.join(CACHE, 'seeded-evidence')
 ALLOWED_AXIOMS = {'propext', 'Classical.choice', 'Quot.sound'}
 TRUSTED_BASE = [
     'Lean 4.33.0 kernel (lake build; thorough tier: leanchecker re-check of the .olean files)',
